@@ -122,3 +122,21 @@ def main(argv):
   print("selftest: %d variants, %d caught, %d problems" %
         (len(results), sum(1 for r in results if r[1] == "ok"), bad))
   return 1 if bad else 0
+
+
+def summary(prop, jobs=16):
+  """Vitality of a property's rules on the current tree: apply every VARIANT of the property to
+  a scratch copy and see whether the named rule fires. Used by the thorough tier; the result
+  goes into the evidence, it never changes the verdict about /repo."""
+  variants = collect([prop])
+  if not variants:
+    return {"variants": 0}
+  with ThreadPoolExecutor(max_workers=jobs) as ex:
+    results = list(ex.map(run_variant, variants))
+  out = {"variants": len(results),
+         "caught": sum(1 for r in results if r[1] == "ok"),
+         "missed": [r[0][1] for r in results if r[1] == "MISSED"],
+         "inapplicable": [r[0][1] for r in results if r[1] == "BROKEN-VARIANT"],
+         "samples": [{"variant": r[0][1], "file": r[0][2], "expected_rule": r[0][5],
+                      "result": r[1]} for r in results[:8]]}
+  return out
